@@ -39,6 +39,7 @@ fn slice(tier: Tier) -> Vec<(String, PProblem)> {
     let rc = family_recharge();
     let step = (rc.len() / n).max(1);
     out.extend(rc.into_iter().step_by(step).take(n).map(|p| ("recharge".to_string(), p)));
+    out.extend(family_combo(2).into_iter().step_by(tier.pick(16, 1)).map(|p| ("combo".to_string(), p)));
     let td = family_timedep();
     let step = (td.len() / n).max(1);
     out.extend(td.into_iter().step_by(step).take(n).map(|p| ("timedep".to_string(), p)));
@@ -60,7 +61,7 @@ fn cfgs(tier: Tier) -> Vec<SolveCfg> {
 
 fn judge_solution(family: &str, problem: &PProblem, json: &Value) -> Vec<(String, String)> {
     let mut seen = HashSet::new();
-    oracle::check(problem, json, &OracleOptions { tol: if family == "scale" { 1. } else { 0. } })
+    oracle::check(problem, json, &OracleOptions { tol: oracle::tolerance(family, problem) })
         .into_iter()
         // a tour over an unreachable leg is named by problem and leg (as C01 does): "<rule>:<problem>:<leg>|<family>" is split by `key_of`
         .map(|f| (super::c01::finding_key(&f, family, problem), f.what))
